@@ -1,5 +1,5 @@
 //! Native confirmation of MetaType laws and alias coherence (C16, C05).
-use scale_info::{meta_type, MetaType, TypeInfo};
+use scale_info::{meta_type, MetaType};
 use serde_json::{json, Value};
 use std::collections::hash_map::DefaultHasher;
 use std::collections::VecDeque;
@@ -22,31 +22,20 @@ fn differ(a: MetaType, b: MetaType) -> bool {
     a != b && a.cmp(&b) != std::cmp::Ordering::Equal && a.cmp(&b) == b.cmp(&a).reverse() && a.partial_cmp(&b) == Some(a.cmp(&b)) && a.type_id() != b.type_id()
 }
 
-fn alias<A: TypeInfo + 'static + ?Sized, B: TypeInfo + 'static + ?Sized>() -> bool {
-    same(meta_type::<A>(), meta_type::<B>()) && A::type_info() == B::type_info()
-}
 
 pub fn laws() -> Value {
-    // same identity, different function pointers
-    let mut laws: Vec<(&str, bool)> = vec![];
-    laws.push(("Vec<u8> ~ [u8]", same(meta_type::<Vec<u8>>(), meta_type::<[u8]>())));
-    laws.push(("String ~ str", same(meta_type::<String>(), meta_type::<str>())));
-    laws.push(("u8 != u16", differ(meta_type::<u8>(), meta_type::<u16>())));
-    laws.push(("Vec<u8> != Vec<u16>", differ(meta_type::<Vec<u8>>(), meta_type::<Vec<u16>>())));
-    laws.push(("Option<u8> != Option<u16>", differ(meta_type::<Option<u8>>(), meta_type::<Option<u16>>())));
-    laws.push(("(u8,u16) != (u16,u8)", differ(meta_type::<(u8, u16)>(), meta_type::<(u16, u8)>())));
-    let mut al: Vec<(&str, bool)> = vec![];
-    al.push(("Box<u32>", alias::<Box<u32>, u32>()));
-    al.push(("Rc<u32>", alias::<Rc<u32>, u32>()));
-    al.push(("Arc<u32>", alias::<Arc<u32>, u32>()));
-    al.push(("&u32", alias::<&'static u32, u32>()));
-    al.push(("&mut u32", alias::<&'static mut u32, u32>()));
-    al.push(("Vec<u32>", alias::<Vec<u32>, [u32]>()));
-    al.push(("VecDeque<u32>", alias::<VecDeque<u32>, [u32]>()));
-    al.push(("&[u32]", alias::<&'static [u32], [u32]>()));
-    al.push(("String", alias::<String, str>()));
-    al.push(("PhantomData<u8> ~ PhantomData<String>", alias::<PhantomData<u8>, PhantomData<String>>()));
-    al.push(("PhantomData<Vec<u8>> ~ PhantomData<()>", alias::<PhantomData<Vec<u8>>, PhantomData<()>>()));
-    let bad: Vec<&str> = laws.iter().chain(al.iter()).filter(|x| !x.1).map(|x| x.0).collect();
-    json!({"laws_ok": laws.iter().all(|x| x.1), "aliases_ok": al.iter().all(|x| x.1), "failed": bad, "cases": laws.len() + al.len()})
+    // alias-agnostic: for every pair of a corpus, equal type ids <=> equal/ordered/hashed alike and equal definitions; otherwise they differ consistently
+    macro_rules! c { ($($t:ty),* $(,)?) => { vec![$((stringify!($t), meta_type::<$t>())),*] }; }
+    let corpus: Vec<(&str, MetaType)> = c!(u8, u16, u32, str, String, [u8], Vec<u8>, VecDeque<u8>, &'static [u8], Vec<u16>, Box<u32>, Rc<u32>, Arc<u32>, &'static u32, &'static mut u32,
+        Option<u8>, Option<u16>, (u8, u16), (u16, u8), PhantomData<u8>, PhantomData<String>, PhantomData<()>, Box<Rc<u8>>, Box<Vec<u8>>, Arc<String>, [u8; 2], [u8; 3]);
+    let mut bad: Vec<String> = vec![];
+    let mut pairs = 0;
+    for (na, a) in &corpus {
+        for (nb, b) in &corpus {
+            pairs += 1;
+            let ok = if a.type_id() == b.type_id() { same(*a, *b) && a.type_info() == b.type_info() } else { differ(*a, *b) };
+            if !ok { bad.push(format!("{na} / {nb}")); }
+        }
+    }
+    json!({"laws_ok": bad.is_empty(), "aliases_ok": bad.is_empty(), "failed": bad, "cases": pairs})
 }
